@@ -5,7 +5,11 @@
 //! every morpheme (and of every A/B sub-morpheme); any panic or hang is a violation; with a fallback OOV
 //! provider last, an input of <= 49149 bytes whose normalised form is <= 65535 bytes must succeed and
 //! must not be truncated; beyond the limits the outcome must be the InputTooLong error.
-//! Correspondence (the parts of the analysis path modelled in `Model/Total.lean`):
+//! About half of the whole-tokenizer analyses run on RECYCLED objects (`Hist`/`gen_hist`: one tokenizer + one result list that
+//! analysed 1-4 other texts before); the expected answers do not depend on the history.
+//! Correspondence (the parts of the analysis path modelled in `Model/Total.lean`, and their composition in `Model/TotalIO.lean`):
+//!   op `pipe`   the WHOLE pipeline on a small world: the model executes `Total.tokenize` on the configuration built from the line
+//!               (C13 + C07 tokens, matrix, split units, mode); outcome class, morpheme ranges, accessors, `get_internal_cost`;
 //!   op `cost`   the real `Lattice` (reset/insert/connect_eos) driven with generated candidates and i16-extreme
 //!               costs: stored i32 totals, back-pointers, EOS, overflow outcome;
 //!   op `limits` `InputBuffer::start_build` / `with_editor` (commit) at the 49149 / 65535 byte limits; the token
@@ -40,6 +44,8 @@ const N_DIRECTED: usize = 34;
 const N_DIRECTED_LIMITS: usize = 8;
 /// directed case that does not terminate on the unchanged tree: run last
 const HANG_CASE: usize = 29;
+/// one more directed whole-tokenizer case after the directed `limits` cases (keeps the indices of the older ones)
+const EXTRA_DIRECTED: usize = N_DIRECTED + N_DIRECTED_LIMITS;
 
 // ------------------------------------------------------------------------------------------------
 // observation of one whole analysis
@@ -75,6 +81,10 @@ struct Whole {
     cur: String,
     m2o: Vec<usize>,
     morphs: Vec<MorphObs>,
+    /// `MorphemeList::get_internal_cost()` of the result list, `P` when it panics
+    icost: String,
+    /// accessors of the result LIST that panicked: (accessor, message)
+    list_panics: Vec<(String, String)>,
 }
 
 enum Ana {
@@ -148,17 +158,76 @@ fn split_obs(dic: &D, m: &Morpheme<D>, mode: Mode, tag: &str, sub_panics: &mut V
     }
 }
 
-fn whole_here(dic: D, text: &str, mode: Mode) -> Whole {
-    let mut w = Whole { orig: text.to_string(), ..Default::default() };
-    // one short text in three is analysed the way the CLI's `-d` does it: a tokenizer with the public debug flag on (the
-    // lattice and the paths are dumped to stdout) that analysed a LONGER text before; totality does not depend on either
-    let h = text.bytes().fold(0u32, |a, b| a.wrapping_mul(31).wrapping_add(b as u32));
-    let recycled_debug = !text.is_empty() && text.chars().count() <= 24 && h % 3 == 0;
-    let mut tok = if recycled_debug { StatefulTokenizer::create(dic.clone(), true, mode) } else { StatefulTokenizer::new(dic.clone(), mode) };
-    if recycled_debug {
-        let longer = format!("{}{}あいう", text, text);
-        let _ = catch(|| { tok.reset().push_str(&longer); let _ = tok.do_tokenize(); });
+/// what the tokenizer and the result list did BEFORE the text of the case: a long-lived analyser is reset and refilled,
+/// `collect_results` swaps the input buffer of the tokenizer with the one of the list, so a text meets the buffer of the
+/// call before last, the lattice/path/node vectors of the last call.  Totality does not depend on any of it.
+#[derive(Clone, Debug, Default)]
+struct Hist {
+    /// earlier texts analysed on the same `StatefulTokenizer` + `MorphemeList` (empty = new objects)
+    warm: Vec<String>,
+    /// the public debug flag (the CLI's `-d`): lattice and paths are dumped while analysing
+    debug: bool,
+    /// split mode of every earlier analysis (`set_mode` between the calls, as a long-lived analyser is used): 0 = C, 1 = A, 2 = B
+    modes: Vec<usize>,
+}
+
+impl Hist {
+    fn describe(&self) -> String {
+        if self.warm.is_empty() && !self.debug { return "new tokenizer".into(); }
+        format!("{}recycled tokenizer+list after {:?}", if self.debug { "debug " } else { "" },
+            self.warm.iter().map(|t| format!("{}…({} bytes)", t.chars().take(12).collect::<String>(), t.len())).collect::<Vec<_>>())
     }
+}
+
+/// 1-4 earlier texts for a recycled analyser: longer AND shorter than the text of the case, empty ones, rejected ones
+/// (over 49149 bytes; with the default plugin also one whose normalised form exceeds 65535 bytes), texts of the world
+fn gen_hist(rng: &mut Rng, text: &str, world: Option<&World>, default_plugin: bool) -> Hist {
+    let n = text.chars().count();
+    let debug = n > 0 && n <= 24 && rng.chance(1, 3);
+    let pool: &[char] = &['a', 'あ', '漢', '1', 'ア', 'Ａ', 'ｱ', '。', ' ', 'ー', '\u{301}', '東', '京', '都', 'い'];
+    let k = rng.range(1, 4);
+    let mut warm: Vec<String> = vec![];
+    let mut have_longer = false;
+    for j in 0..k {
+        let t = match rng.below(16) {
+            0 | 1 => String::new(),
+            2 if !debug => rep("a", 49150 + rng.below(3)),                                  // rejected by start_build
+            3 if !debug && default_plugin => rep("\u{FDFA}", 1986 + rng.below(4)),          // rejected by commit (normalised > 65535)
+            4 | 5 => text.chars().take(rng.below(n + 1)).collect(),                         // a prefix: shorter
+            6 | 7 => { have_longer = true; format!("{}{}あいう", text.chars().take(200).collect::<String>(), text.chars().take(200).collect::<String>()) } // longer
+            8 | 9 if world.is_some() => gen_text(rng, world.unwrap(), 30),
+            10 => { let c = *rng.pick(pool); rep(&c.to_string(), rng.range(1, if debug { 40 } else { 300 })) }
+            _ => { let m = rng.range(1, if debug { 30 } else { 80 }); (0..m).map(|_| *rng.pick(pool)).collect() }
+        };
+        warm.push(t);
+        let _ = j;
+    }
+    // the stale rows/buffers matter when an earlier text was LONGER: make sure one is (in the last or the one before last call)
+    if !have_longer && rng.chance(2, 3) {
+        let longer = format!("{}{}あいう", text.chars().take(200).collect::<String>(), text.chars().rev().take(100).collect::<String>());
+        let at = if warm.len() >= 2 && rng.chance(1, 2) { warm.len() - 2 } else { warm.len() - 1 };
+        warm[at] = longer;
+    }
+    let modes = (0..warm.len()).map(|_| rng.below(3)).collect();
+    Hist { warm, debug, modes }
+}
+
+fn whole_here(dic: D, text: &str, mode: Mode, hist: &Hist) -> Whole {
+    let mut w = Whole { orig: text.to_string(), ..Default::default() };
+    let mut tok = if hist.debug { StatefulTokenizer::create(dic.clone(), true, mode) } else { StatefulTokenizer::new(dic.clone(), mode) };
+    let mut ml = MorphemeList::empty(dic.clone());
+    for (k, wt) in hist.warm.iter().enumerate() {
+        let r = catch(|| {
+            tok.set_mode(mode_of(hist.modes.get(k).copied().unwrap_or(0)));
+            tok.reset().push_str(wt);
+            if tok.do_tokenize().is_ok() { let _ = ml.collect_results(&mut tok); }
+        });
+        if let Err(msg) = r {
+            // a panic while analysing an earlier text is a violation on that text with the history before it
+            w.outcome = "PANIC".into(); w.stage = format!("warmup{}", k); w.msg = msg; return w;
+        }
+    }
+    if !hist.warm.is_empty() { tok.set_mode(mode); }
     if let Err(msg) = catch(|| tok.reset().push_str(text)) {
         w.outcome = "PANIC".into(); w.stage = "reset".into(); w.msg = msg; return w;
     }
@@ -170,13 +239,16 @@ fn whole_here(dic: D, text: &str, mode: Mode) -> Whole {
     let t = tok.verif_input().verif_tables();
     w.cur = t.modified.clone();
     w.m2o = t.m2o.clone();
-    let mut ml = MorphemeList::empty(dic.clone());
     match catch(|| ml.collect_results(&mut tok)) {
         Err(msg) => { w.outcome = "PANIC".into(); w.stage = "collect".into(); w.msg = msg; return w; }
         Ok(Err(e)) => { w.outcome = format!("err:{}", err_class(&e)); w.stage = "collect".into(); return w; }
         Ok(Ok(())) => {}
     }
     w.outcome = "ok".into();
+    w.icost = match catch(|| ml.get_internal_cost()) {
+        Ok(v) => v.to_string(),
+        Err(msg) => { w.list_panics.push(("get_internal_cost".to_string(), msg)); "P".to_string() }
+    };
     let base = ml.surface().as_ptr() as usize;
     for i in 0..ml.len() {
         let m = ml.get(i);
@@ -194,12 +266,13 @@ fn whole_here(dic: D, text: &str, mode: Mode) -> Whole {
     w
 }
 
-fn whole(dic: &D, text: &str, mode: Mode, timeout_ms: u64) -> Ana {
+fn whole(dic: &D, text: &str, mode: Mode, timeout_ms: u64, hist: &Hist) -> Ana {
     let (tx, rx) = std::sync::mpsc::channel();
     let d = dic.clone();
     let t = text.to_string();
+    let h = hist.clone();
     std::thread::spawn(move || {
-        let r = catch(|| whole_here(d, &t, mode));
+        let r = catch(|| whole_here(d, &t, mode, &h));
         let _ = tx.send(r);
     });
     match rx.recv_timeout(std::time::Duration::from_millis(timeout_ms)) {
@@ -459,10 +532,14 @@ struct Expect<'a> {
     default_plugin: bool,
     /// every character of the text is "safe" only matters for texts that can reach a limit
     limit_relevant: bool,
+    /// the configured input-text plugins can delete text (prolonged-sound-mark plugin with an EMPTY replacement symbol,
+    /// yomigana plugin): a text they delete completely has an empty normalised form and, rightly, no morphemes
+    may_delete_all: bool,
 }
 
-fn judge(run: &mut Run, idx: usize, ex: &Expect, text: &str, mode: Mode, ana: &Ana, world: &str) {
-    let ctx = |w: &str| format!("{} | case={} text={:?} ({} bytes) mode={:?} world={}", w, ex.tag, text.chars().take(40).collect::<String>(), text.len(), mode, world);
+fn judge(run: &mut Run, idx: usize, ex: &Expect, text: &str, mode: Mode, ana: &Ana, world: &str, hist: &Hist) {
+    let ctx = |w: &str| format!("{} | case={} text={:?} ({} bytes) mode={:?} history={} world={}", w, ex.tag, text.chars().take(40).collect::<String>(), text.len(), mode, hist.describe(), world);
+    run.bump(&format!("history:{}", if hist.warm.is_empty() { "new-objects".to_string() } else { format!("recycled-after-{}-texts{}", hist.warm.len(), if hist.debug { "-debug" } else { "" }) }));
     let w = match ana {
         Ana::Hang => {
             run.bump("outcome:HANG");
@@ -507,6 +584,10 @@ fn judge(run: &mut Run, idx: usize, ex: &Expect, text: &str, mode: Mode, ana: &A
         return;
     }
     // ok: accessors, truncation
+    if let Some((a, msg)) = w.list_panics.first() {
+        run.fail(idx, &format!("c03:{}:panic:{}@{}", ex.tag, panic_class(msg), a),
+            &ctx(&format!("result list: accessor {} panics: {:?} (clauses 'never ... overflows', 'every accessor ... is safe to call')", a, msg.chars().take(160).collect::<String>())));
+    }
     for (mi, m) in w.morphs.iter().enumerate() {
         if let Some((a, msg)) = m.p.panics.first().or(m.sub_panics.first()) {
             run.fail(idx, &format!("c03:{}:panic:{}@{}", ex.tag, panic_class(msg), a.chars().filter(|c| !c.is_ascii_digit()).collect::<String>()),
@@ -515,6 +596,10 @@ fn judge(run: &mut Run, idx: usize, ex: &Expect, text: &str, mode: Mode, ana: &A
         }
     }
     let concat: String = w.morphs.iter().map(|m| m.p.surface.clone()).collect();
+    if ex.may_delete_all && w.morphs.is_empty() && w.cur.is_empty() && !text.is_empty() {
+        run.bump("outcome:ok-normalised-text-empty(plugins deleted everything)");
+        return;
+    }
     if concat != text {
         run.fail(idx, &format!("c03:{}:truncated", ex.tag), &ctx(&format!("the surfaces of the {} morphemes cover {} of {} bytes (truncated or altered result)", w.morphs.len(), concat.len(), text.len())));
     }
@@ -580,6 +665,31 @@ pub fn regex_skips_empty() -> bool {
             }
         });
         r == Ok(true)
+    })
+}
+
+/// what `Morpheme::total_cost()` of a node made by `NodeSplitIterator` is in the linked tree: `max` = `i32::MAX` (the pinned
+/// code: `ResultNode::new(inner, i32::MAX, ..)`), `parent` = the total of the node it was split from (the repair
+/// `fix: split units report the path cost of the word they come from`).  Behavioural probe, once: `ab` = `a` + `b`, mode A.
+pub fn unit_cost_variant() -> &'static str {
+    static P: std::sync::OnceLock<&'static str> = std::sync::OnceLock::new();
+    *P.get_or_init(|| {
+        let mut rows = vec![Row::simple("a", 0, 0, 100, NOUN), Row::simple("b", 0, 0, 100, NOUN), Row::simple("ab", 0, 0, 50, NOUN)];
+        rows[2].mode = 'C';
+        rows[2].split_a = "0/1".into();
+        let (_wd, dic) = match dict_from("C03-probe-ucost", &rows, "1 1\n0 0 10\n", &[], &[simple_oov_json(0, 0, 3000)], &[]) {
+            Ok(x) => x,
+            Err(_) => return "max",
+        };
+        let r = catch(|| {
+            let mut tok = StatefulTokenizer::new(dic.clone(), Mode::A);
+            tok.reset().push_str("ab");
+            if tok.do_tokenize().is_err() { return false; }
+            let mut ml = MorphemeList::empty(dic.clone());
+            if ml.collect_results(&mut tok).is_err() { return false; }
+            ml.len() == 2 && ml.get(0).total_cost() != i32::MAX && ml.get(1).total_cost() != i32::MAX
+        });
+        if r == Ok(true) { "parent" } else { "max" }
     })
 }
 
@@ -815,24 +925,227 @@ fn limits_case(run: &mut Run, idx: usize, rng: &mut Rng, directed: Option<usize>
 }
 
 // ------------------------------------------------------------------------------------------------
+// op `pipe`: the WHOLE pipeline on a small world, executed by the model (`Total.tokenize` through `Model/TotalIO.lean`)
+//
+// World = C13's generated char.def / unk.def / provider stack / lexicon (same tokens as a `C13 lat` line) + C07's
+// generated input-text plugin stack (same tokens as a `C07 run` line, `rwdef=` for the rewrite table) + the connection
+// matrix (same token as a `cost` line) + A/B split declarations (unit key lengths per lexicon row, `lexu=`) + mode.
+// Answer = outcome class and, for `ok`, per morpheme the node range and begin/end/begin_c/end_c/surface range.
+
+struct PipeCtx {
+    c13: crate::c13::Ctx,
+}
+
+fn pipe_ctx() -> PipeCtx {
+    let wd = Workdir::new_legacy("c03-pipe");
+    let system = build_system(csv_of(&crate::c13::fixed_rows(), &default_pos()).as_bytes(), Matrix::random(&mut Rng::new(77), crate::c13::N_IDS, crate::c13::N_IDS, false).text().as_bytes()).expect("system dictionary");
+    wd.write("unk.def", "");
+    wd.write("char.def", "DEFAULT 0 1 0\n");
+    let poslist_hex = {
+        let dic = load(&config_json(&wd, &[], &[simple_oov_json(0, 0, 0)], &[], &[]), system.clone(), vec![]).expect("baseline dictionary");
+        let s: String = dic.grammar().pos_list.iter().map(|p| format!("{}\n", p.join(","))).collect();
+        hex(s.as_bytes())
+    };
+    PipeCtx { c13: crate::c13::Ctx { wd, system, poslist_hex } }
+}
+
+/// adds A/B split declarations to some multi-character rows (unit rows are appended when missing); every third
+/// declaration is ill-formed on purpose (units that do not concatenate to the key: D6 territory, loads fine)
+fn add_splits(rng: &mut Rng, lex: &mut Vec<Row>, pool: &[char]) -> Vec<String> {
+    // compounds of two or three existing or new short words, cheap enough to be chosen
+    for _ in 0..rng.range(1, 2) {
+        let nparts = rng.range(2, 3);
+        let parts: Vec<String> = (0..nparts).map(|_| if lex.len() > POS.len() && rng.chance(1, 2) { lex[rng.range(POS.len(), lex.len() - 1)].surface.clone() } else { rand_word(rng, pool, 2) }).collect();
+        let surface: String = parts.concat();
+        if surface.chars().count() > 6 || lex.iter().any(|r| r.surface == surface) { continue; }
+        lex.push(Row::simple(&surface, crate::c13::small_id(rng) as i32, crate::c13::small_id(rng) as i32, rng.below(400) as i32 - 450, rng.below(POS.len())));
+    }
+    let n0 = lex.len();
+    let mut with_split: Vec<String> = vec![];
+    let cands: Vec<usize> = (0..n0).rev().filter(|&i| lex[i].surface.chars().count() >= 2 && !lex[i].surface.starts_with('ん')).collect();
+    for &i in cands.iter().take(4) {
+        if rng.chance(1, 4) { continue; }
+        let cs: Vec<char> = lex[i].surface.chars().collect();
+        let cut = rng.range(1, cs.len() - 1);
+        let mut parts: Vec<String> = vec![cs[..cut].iter().collect(), cs[cut..].iter().collect()];
+        if rng.chance(1, 3) {
+            // ill-formed: a unit that is longer than its share, or units in the wrong order
+            if rng.chance(1, 2) { parts.swap(0, 1); } else { parts[0] = format!("{}{}", parts[0], parts[1]); }
+        }
+        let mut ids = vec![];
+        for p in &parts {
+            let id = match lex.iter().position(|r| &r.surface == p) {
+                Some(k) => k,
+                None => { lex.push(Row::simple(p, crate::c13::small_id(rng) as i32, crate::c13::small_id(rng) as i32, rng.below(9000) as i32 - 500, rng.below(POS.len()))); lex.len() - 1 }
+            };
+            ids.push(id);
+        }
+        let decl = join(ids.iter(), "/");
+        lex[i].mode = 'C';
+        if rng.chance(2, 3) { lex[i].cost = rng.below(400) as i32 - 450; }
+        with_split.push(lex[i].surface.clone());
+        match rng.below(3) {
+            0 => { lex[i].split_a = decl; }
+            1 => { lex[i].split_b = decl; }
+            _ => { lex[i].split_a = decl.clone(); lex[i].split_b = decl; }
+        }
+    }
+    // the model identifies a path node with the FIRST row of that surface, ids and cost: rows that agree in all four get the
+    // same declaration (they are homographs the lattice cannot tell apart either: the first one inserted wins)
+    for i in 0..lex.len() {
+        if let Some(k) = (0..i).find(|&k| lex[k].surface == lex[i].surface && lex[k].left == lex[i].left && lex[k].right == lex[i].right && lex[k].cost == lex[i].cost) {
+            let (a, b, m) = (lex[k].split_a.clone(), lex[k].split_b.clone(), lex[k].mode);
+            lex[i].split_a = a; lex[i].split_b = b; lex[i].mode = m;
+        }
+    }
+    with_split
+}
+
+fn unit_lens(lex: &[Row], decl: &str) -> String {
+    if decl == "*" { return "-".into(); }
+    join(decl.split('/').map(|x| lex[x.parse::<usize>().unwrap()].surface.len()), "+")
+}
+
+fn pipe_case(run: &mut Run, idx: usize, rng: &mut Rng, pc: &PipeCtx) {
+    use crate::c13::Prov;
+    let with_input = rng.chance(1, 2);
+    let d = crate::c13::gen_defs(rng, with_input, false);
+    let mut lc = crate::c13::gen_lat(rng, &d);
+    let split_words = add_splits(rng, &mut lc.lex, &d.pool);
+    let mut c7 = crate::c07::gen_cfg(rng, None);
+    if !with_input { c7.pipe.clear(); }
+    let extreme_m = rng.chance(1, 4);
+    let matrix = Matrix::random(rng, crate::c13::N_IDS, crate::c13::N_IDS, extreme_m);
+    let mode = mode_of(rng.below(3));
+    // text: characters of the char.def pool, of the plugin configuration, and what the plugins rewrite
+    let mut extra: Vec<char> = crate::c13::NORMALISED.to_vec();
+    if with_input {
+        extra.extend(c7.pool.iter().take(4));
+        extra.extend(c7.marks.iter().take(2));
+        extra.extend(c7.yl.iter().take(1));
+        extra.extend(c7.yr.iter().take(1));
+        extra.extend(['ー', '漢', 'か']);
+    }
+    let mut text = crate::c13::gen_text(rng, &d.pool, &extra);
+    if rng.chance(1, 6) { for r in lc.lex.iter().rev().take(2) { text.push_str(&r.surface); } }
+    if !split_words.is_empty() && rng.chance(2, 3) {
+        // the words that carry a split declaration occur in the text
+        for _ in 0..rng.range(1, 2) {
+            let wds = rng.pick(&split_words).clone();
+            let cs: Vec<char> = text.chars().collect();
+            let at = rng.below(cs.len() + 1);
+            text = cs[..at].iter().collect::<String>() + &wds + &cs[at..].iter().collect::<String>();
+        }
+    }
+    if text.chars().count() > 48 { text = text.chars().take(48).collect(); }
+    if rng.chance(1, 40) { text.clear(); }
+    // ---- the real world
+    let wd = &pc.c13.wd;
+    wd.write("char.def", &d.char_def);
+    wd.write("unk.def", &d.unk_def);
+    wd.write("rw.def", &c7.def_text);
+    let oov: Vec<String> = lc.provs.iter().map(|p| match p { Prov::M => crate::c13::mecab_json(), Prov::S => crate::c13::simple_json(&lc.sp), Prov::R => crate::c13::regex_json(&lc.rp) }).collect();
+    let mut input: Vec<String> = c7.pipe.iter().map(|&p| crate::c07::plugin_json(&c7, p)).collect();
+    let kinds: Vec<&str> = lc.provs.iter().map(|p| match p { Prov::M => "m", Prov::S => "s", Prov::R => "r" }).collect();
+    let mut ptoks = vec![];
+    for (k, p) in [("m", Prov::M), ("s", Prov::S), ("r", Prov::R)] {
+        if kinds.contains(&k) { ptoks.push(crate::c13::prov_tokens(&p, &d, &lc.sp, &lc.rp, &pc.c13)); }
+    }
+    let lex_tok = join(lc.lex.iter().map(|r| format!("{}:{}:{}:{}", join(r.surface.chars().map(|c| c as u32), "."), r.left, r.right, r.cost)), ";");
+    let lexu_tok = join(lc.lex.iter().map(|r| format!("{}/{}", unit_lens(&lc.lex, &r.split_a), unit_lens(&lc.lex, &r.split_b))), ";");
+    let mut cells = vec![];
+    for b in 0..matrix.nr { for a in 0..matrix.nl { cells.push(matrix.cost(a, b) as i64); } }
+    let mode_s = match mode { Mode::A => "A", Mode::B => "B", _ => "C" };
+    let world_tokens = |c7: &crate::c07::Cfg, uni: &str| format!(
+        "mode={} cdef={} variant={}{} provs={} {} lex={} lexu={} conn={}:{}:{} {} uni={} split={} commit={} profile={} ucost={}",
+        mode_s, hex(d.char_def.as_bytes()), if crate::c13::source_is_forward() { "fwd" } else { "bwd" }, if crate::c13::source_chains_bow_ban() { " bow=fix" } else { "" },
+        kinds.join("."), ptoks.join(" "), lex_tok, lexu_tok, matrix.nl, matrix.nr, join(cells.iter(), ","),
+        crate::c07::setup_payload(c7, crate::c07::impl_earliest()).replace(" def=", " rwdef="), uni, split_variant(), commit_variant(), profile(), unit_cost_variant());
+    run.bump(&format!("pipe:providers:{}", kinds.join(".")));
+    run.bump(&format!("pipe:input:{}", c7.pipe.iter().collect::<String>()));
+    let system = match build_system(csv_of(&lc.lex, &default_pos()).as_bytes(), matrix.text().as_bytes()) {
+        Ok(s) => s,
+        Err(e) => { run.bump(&format!("pipe:build-error:{}", e.chars().take(40).collect::<String>())); return; }
+    };
+    let mut loaded = load(&config_json(wd, &input, &oov, &[], &[]), system.clone(), vec![]);
+    if let Err(e) = &loaded {
+        // IgnoreYomiganaPlugin builds its pattern from the KANJI ranges of char.def: a generated char.def without KANJI
+        // characters gives an empty class and the plugin (rightly) fails to set up; such a world runs without the plugin
+        if c7.pipe.contains(&'Y') && e.contains("IgnoreYomiganaPlugin") {
+            c7.pipe.retain(|&p| p != 'Y');
+            input = c7.pipe.iter().map(|&p| crate::c07::plugin_json(&c7, p)).collect();
+            run.bump("pipe:yomigana-dropped(no KANJI range in char.def)");
+            loaded = load(&config_json(wd, &input, &oov, &[], &[]), system, vec![]);
+        }
+    }
+    let dic: D = match loaded {
+        Ok(x) => Arc::new(x),
+        Err(e) => {
+            run.case(idx, "pipe", &format!("orig={} {}", hex(text.as_bytes()), world_tokens(&c7, "")), "err:setup", false);
+            run.bump("pipe:setup-error");
+            let expected = d.broken || (c7.pipe.contains(&'D') && c7.table.is_none()) || (c7.pipe.contains(&'P') && c7.marks.is_empty()) || (c7.pipe.contains(&'Y') && c7.yn == 0);
+            if !expected { run.fail(idx, "c03:pipe:setup", &format!("a well-formed configuration was rejected: {}", e.chars().take(200).collect::<String>())); }
+            return;
+        }
+    };
+    let uni = {
+        let cl = crate::c07::Classes { dic: &dic };
+        let mut chars: std::collections::BTreeSet<char> = crate::c07::cfg_chars(&c7);
+        chars.extend(text.chars());
+        crate::c07::facts_for(&chars, &cl)
+    };
+    let payload = format!("orig={} {}", hex(text.as_bytes()), world_tokens(&c7, &uni));
+    let default_plugin = c7.pipe.contains(&'D');
+    let hist = if rng.chance(1, 2) { gen_hist(rng, &text, None, default_plugin) } else { Hist::default() };
+    let ana = whole(&dic, &text, mode, 60_000, &hist);
+    let fallback = matches!(lc.provs.last(), Some(Prov::S));
+    run.bump(if fallback { "pipe:fallback-last" } else { "pipe:no-fallback-last" });
+    match &ana {
+        Ana::Hang => { run.case(idx, "pipe", &payload, "HANG", true); }
+        Ana::Done(w) => {
+            let ans = if w.outcome == "ok" {
+                let ms = w.morphs.iter().map(|m| format!("{}:{}:{}:{}/{}", m.node.0, m.node.1, m.node.2, m.node.3, m.p.acc)).collect::<Vec<_>>().join(";");
+                if w.icost == "P" { run.bump("pipe:get_internal_cost-panics"); }
+                format!("ok n={} {} cost={}", w.morphs.len(), ms, w.icost)
+            } else if w.outcome.starts_with("err:Other") { "err:Other".to_string() } else { w.outcome.clone() };
+            let split_seen = w.morphs.len() >= 2 && (mode != Mode::C);
+            if w.outcome == "ok" {
+                run.bump(&format!("pipe:morphemes:{}", w.morphs.len().min(8)));
+                if w.cur != w.orig { run.bump("pipe:text-rewritten"); }
+            }
+            run.case(idx, "pipe", &payload, &ans, w.outcome != "ok" || w.morphs.len() >= 2 || split_seen);
+        }
+    }
+    let may_delete_all = (c7.pipe.contains(&'P') && c7.rep.as_deref() == Some("")) || c7.pipe.contains(&'Y');
+    let ex = Expect { tag: if text.contains('\u{0}') { "gen-nul" } else { "pipe" }, fallback, default_plugin, limit_relevant: false, may_delete_all };
+    judge(run, idx, &ex, &text, mode, &ana, &format!("pipe world providers={} input={}", kinds.join("."), c7.pipe.iter().collect::<String>()), &hist);
+}
+
+// ------------------------------------------------------------------------------------------------
 
 pub fn run(run: &mut Run) {
     run.extra.insert("model_variant_split".into(), serde_json::json!(split_variant()));
     run.bump(&format!("model-variant:split={}", split_variant()));
     run.extra.insert("model_variant_commit".into(), serde_json::json!(commit_variant()));
     run.bump(&format!("model-variant:commit={}", commit_variant()));
+    run.extra.insert("model_variant_unit_cost".into(), serde_json::json!(unit_cost_variant()));
+    run.bump(&format!("model-variant:unit-cost={}", unit_cost_variant()));
     run.extra.insert("model_variant_regex_skips_empty".into(), serde_json::json!(regex_skips_empty()));
     run.bump(&format!("model-variant:regex-skips-empty={}", regex_skips_empty()));
     run.rule = "directed: D7 chains (32768/32769/40000 one-character words of cost 32767, connection 32767), total = i32::MAX sentinel, D6 split longer \
 than parent, regex matching the empty string, commit running length, 49148/49149/49150-byte inputs, NFKC x18 / x4 expansions crossing 65535 bytes, NUL/controls/ZWJ, \
 class runs, JoinNumeric hang; generated: random worlds (all plugin stacks, with/without fallback, i16-extreme costs) x adversarial texts (specials, 60-70 class runs, \
 one repeated character, random scalar values, budgeted 49k/65k-byte texts) x modes A/B/C with every accessor of every morpheme and sub-morpheme under catch_unwind on a worker thread; \
-op cost = the real Lattice driven with random candidates and extreme costs; op limits = start_build/commit at the limits; op access = accessors recomputed from the dumped tables. \
-non-trivial = access line with a changed text or a split, cost line with >= 2 nodes, limits line with a batch; distinct by line".into();
+op cost = the real Lattice driven with random candidates and extreme costs; op limits = start_build/commit at the limits; op access = accessors recomputed from the dumped tables; \
+op pipe = the whole pipeline on small worlds (C13 char.def/unk.def/provider stacks/lexicon, C07 input-plugin stacks, random matrix, A/B split declarations incl. ill-formed ones, modes A/B/C, texts <= 48 characters) \
+executed by the model (Total.tokenize): outcome class, every morpheme's node range and accessors, get_internal_cost; about half of all whole-tokenizer analyses run on a RECYCLED StatefulTokenizer + MorphemeList \
+(1-4 earlier texts: longer, shorter, empty, rejected by either limit, other modes; a third of the short ones with the debug flag). \
+non-trivial = access line with a changed text or a split, cost line with >= 2 nodes, limits line with a batch, pipe line with an error outcome or >= 2 morphemes; distinct by line".into();
     let n = run.opts.count;
     let seed = run.opts.seed;
     let mut cur_world: Option<(usize, Result<(World, D), String>)> = None;
     let mut cur_cost: Option<(usize, Result<CostDict, String>)> = None;
+    let mut pipe: Option<PipeCtx> = None;
     let order: Vec<usize> = (0..n).filter(|&i| i != HANG_CASE).chain(if HANG_CASE < n { Some(HANG_CASE) } else { None }).collect();
     for idx in order {
         if !run.wants(idx) { continue; }
@@ -853,13 +1166,14 @@ non-trivial = access line with a changed text or a split, cost line with >= 2 no
                 }
             };
             let timeout = if idx == HANG_CASE { 4000 } else { 120_000 };
-            let ana = whole(&dic, &d.text, d.mode, timeout);
+            let hist = if idx % 2 == 1 { gen_hist(&mut Rng::for_case(seed ^ 0x4157, idx), &d.text, None, d.default_plugin) } else { Hist::default() };
+            let ana = whole(&dic, &d.text, d.mode, timeout, &hist);
             run.bump(&format!("directed:{}", d.name));
             // a case line for the directed analysis: the access line when small, else a limits-style observation
             let before = run.failures.len();
             if let Ana::Done(w) = &ana { access_line(run, idx, w); }
-            let ex = Expect { tag: d.name, fallback: d.fallback, default_plugin: d.default_plugin, limit_relevant: true };
-            judge(run, idx, &ex, &d.text, d.mode, &ana, "directed");
+            let ex = Expect { tag: d.name, fallback: d.fallback, default_plugin: d.default_plugin, limit_relevant: true, may_delete_all: false };
+            judge(run, idx, &ex, &d.text, d.mode, &ana, "directed", &hist);
             let _ = before;
             // also tie the D7 chains through the real tokenizer to the model's chain
             if idx == 5 {
@@ -870,6 +1184,28 @@ non-trivial = access line with a changed text or a split, cost line with >= 2 no
         }
         if idx < N_DIRECTED + N_DIRECTED_LIMITS {
             limits_case(run, idx, &mut rng, Some(idx - N_DIRECTED));
+            continue;
+        }
+        if idx == EXTRA_DIRECTED {
+            // `MorphemeList::get_internal_cost()` = last.total_cost() - first.total_cost() in i32; a node made by
+            // NodeSplitIterator carries i32::MAX as its total in the pinned tree: `東京都` = `東` (cost -300: total -290) +
+            // `京都` (A-split `京`/`都`), mode A: i32::MAX - (-290) overflows
+            let mut rows = vec![Row::simple("東", 0, 0, -300, NOUN), Row::simple("京", 0, 0, 100, NOUN), Row::simple("都", 0, 0, 100, NOUN), Row::simple("京都", 0, 0, 50, NOUN)];
+            rows[3].mode = 'C';
+            rows[3].split_a = "1/2".into();
+            match dict_from("C03-d-icost", &rows, "1 1\n0 0 10\n", &[], &[simple_oov_json(0, 0, 3000)], &[]) {
+                Ok((_wd, dic)) => {
+                    for (k, mode) in [Mode::A, Mode::C].iter().enumerate() {
+                        let hist = if k == 0 { Hist::default() } else { gen_hist(&mut rng, "東京都", None, false) };
+                        let ana = whole(&dic, "東京都", *mode, 60_000, &hist);
+                        run.bump("directed:internal-cost-split");
+                        if let Ana::Done(w) = &ana { access_line(run, idx, w); }
+                        let ex = Expect { tag: "internal-cost-split", fallback: true, default_plugin: false, limit_relevant: false, may_delete_all: false };
+                        judge(run, idx, &ex, "東京都", *mode, &ana, "directed", &hist);
+                    }
+                }
+                Err(e) => run.fail_with_line(idx, "", "c03:internal-cost-split:dictionary", &format!("the directed dictionary does not build/load: {}", e)),
+            }
             continue;
         }
         match idx % 10 {
@@ -886,6 +1222,10 @@ non-trivial = access line with a changed text or a split, cost line with >= 2 no
                 }
             }
             2 if idx % 20 == 2 => limits_case(run, idx, &mut rng, None),
+            3 | 8 => {
+                if pipe.is_none() { pipe = Some(pipe_ctx()); }
+                pipe_case(run, idx, &mut rng, pipe.as_ref().unwrap());
+            }
             _ => {
                 let widx = idx / CASES_PER_WORLD;
                 if cur_world.as_ref().map(|w| w.0) != Some(widx) {
@@ -913,10 +1253,11 @@ non-trivial = access line with a changed text or a split, cost line with >= 2 no
                 run.bump(&format!("text:{}", kind));
                 for d in &w.desc { run.bump(d); }
                 run.bump(if w.has_fallback { "fallback:last" } else { "fallback:none-or-not-last" });
-                let ana = whole(dic, &text, mode, 120_000);
+                let hist = if rng.chance(1, 2) { gen_hist(&mut rng, &text, Some(w), default_plugin) } else { Hist::default() };
+                let ana = whole(dic, &text, mode, 120_000, &hist);
                 if let Ana::Done(wh) = &ana { access_line(run, idx, wh); }
-                let ex = Expect { tag: if text.contains('\u{0}') { "gen-nul" } else { "gen" }, fallback: w.has_fallback, default_plugin, limit_relevant: long };
-                judge(run, idx, &ex, &text, mode, &ana, &w.desc.join(" "));
+                let ex = Expect { tag: if text.contains('\u{0}') { "gen-nul" } else { "gen" }, fallback: w.has_fallback, default_plugin, limit_relevant: long, may_delete_all: false };
+                judge(run, idx, &ex, &text, mode, &ana, &w.desc.join(" "), &hist);
             }
         }
     }
